@@ -1,4 +1,142 @@
-(* HEADER-PLACEHOLDER *)
+(* TreeBase -- shared base library for the B+tree proofs (C01 / C03).
+   Built on Model/RTree.v, Model/TreeSpec.v, Model/TreeRun.v (Module Spec).
+   No axioms; every lemma is "Closed under the global context".
+
+   CONVENTIONS
+   - Everything from section 5 on lives in [Section Base] over (V : Type)
+     (ml mi : nat); after the section every definition takes V ml mi
+     explicitly (WFbody V ml mi lo hi t, WFkids V ml mi lf d first lo hi l,
+     size_ok V ml mi t, kcontents V l, next_hi V hi rest ...); lemmas take
+     them as leading (inferable) arguments.  alookup / ainsert / aremove /
+     hdkey / ksorted / all_lt / all_ge / all_gt / kwithin have V implicit.
+   - Bounds are Prop-level: Above lo k, Below hi k, Within lo hi k (unfold and
+     use lia); lo_le lo' lo / hi_le hi hi' are the "weaker bound" orders.
+   - Association lists: ksorted m := StronglySorted Z.lt (map fst m);
+     all_lt m s / all_ge s m / all_gt s m / kwithin lo hi m / all_above lo m
+     are Forall over the PAIRS of m.
+
+   THE INVARIANT (section 5)
+     WFbody lo hi t   everything wf_node checks except the size of t itself;
+                      all proper descendants are fully well-formed (sizes
+                      included).  Leaf i [] and Node i [] satisfy WFbody.
+       WFB_leaf : ksorted l -> kwithin lo hi l -> WFbody lo hi (Leaf i l)
+       WFB_node : WFkids lf d true lo hi kids -> WFbody lo hi (Node i kids)
+     WFkids lf d first lo hi l   mirrors the inner [go first lo l] of wf_node
+                      for the fixed upper bound hi; lf / d = common kind and
+                      depth of the children (replaces the reference child c0).
+       WFK_nil  : WFkids lf d first lo hi []
+       WFK_cons : (first = true \/ (Within lo hi s /\ tmin c = Some s)) ->
+                  is_leaf c = lf -> depth c = d -> size_ok c ->
+                  WFbody (if first then lo else Some s)
+                         (match rest with [] => hi | (s2,_)::_ => Some s2 end) c ->
+                  WFkids lf d false (if first then lo else Some s) hi rest ->
+                  WFkids lf d first lo hi ((s, c) :: rest)
+       (lo_of first lo s / next_hi hi rest name the two bound expressions;
+        WFkids_inv' / WFkids_cons' are inversion / constructor in that form.)
+     size_ok t        := 1 <= tsize t <= max_for t          (non-root size)
+     top_size_ok root t  the size test wf_node makes at the top
+     WFtop szok lo hi t := szok (tsize t) /\ WFbody lo hi t (RELAXED variant:
+                      only the size of the top node is replaced by szok)
+     WF root lo hi t  := top_size_ok root t /\ WFbody lo hi t
+     WF_mutind        mutual (minimality) induction principle for WFbody/WFkids
+                      (WFbody_mind, WFkids_mind are the two components)
+
+   EXPORTED LEMMAS
+   1. tree induction:  tree_ind' (Node case gets Forall (fun sc => P (snd sc)) kids)
+   2. association lists:  alookup ainsert aremove amem hdkey (definitions);
+      alookup_Spec ainsert_Spec aremove_Spec amem_Spec (= Spec.* at V := Z,
+      also convertible: [change (Spec.lookup l k) with (alookup l k)] works)
+   3. bounds:  above_iff below_iff within_iff (bool <-> Prop)  lo_le_refl
+      hi_le_refl lo_le_trans hi_le_trans lo_le_None hi_le_None Above_lo_le
+      Below_hi_le Above_widen Below_widen Within_widen Above_trans Below_trans
+      kwithin_widen kwithin_app kwithin_all_lt kwithin_all_ge kwithin_forallb
+      kwithin_relo kwithin_cut_hi kwithin_cut_lo all_above_app all_ge_above
+   4. sortedness:  strictly_sorted_b_Sorted strictly_sorted_b_iff ksorted_nil
+      ksorted_cons ksorted_tail all_lt_app all_ge_app all_gt_app all_ge_gt
+      all_gt_ge all_lt_le all_gt_trans
+      ksorted_app      (sorted a++b <-> sorted a, sorted b, keys a < keys b)
+      ksorted_app_sep  (separator form)  ksorted_app_l ksorted_app_r
+      ksorted_hd_ge    (all keys >= head key)
+      ksorted_app_hd   (a below / b at-or-above the head key of b)
+   5./6. invariant and reflection:
+      wf_node_iff : wf_node V ml mi root lo hi t = true <-> WF root lo hi t
+      wf_node_WF WF_wf_node (the two directions)  wf_go wf_node_Leaf
+      wf_node_Node wf_go_iff (the inner loop as a standalone Fixpoint)
+      WF_WFtop : WF false lo hi t <-> WFtop (fun n => 1 <= n <= max_for t) lo hi t
+      WF_false_size_ok : WF false lo hi t <-> size_ok t /\ WFbody lo hi t
+      WF_root_WFtop WFtop_sz WFtop_intro size_ok_WFtop size_ok_Leaf size_ok_Node
+      top_size_ok_b opt_eqb_iff
+      Inv_iff Inv_Node_nil Inv_Node_intro Inv_inv Inv_WFbody Inv_sorted Inv_tget
+      WFbody_Leaf_inv WFbody_Node_inv WFbody_Leaf_nil WFbody_Node_nil
+      WFbody_Leaf_single
+   7. facts under WFbody / WFkids:
+      contents_Leaf contents_Node kcontents_nil kcontents_cons kcontents_app
+      WFkids_inv WFkids_inv_false WFkids_next_sep (inversions)
+      WFkids_Forall (kind, depth, size_ok of every child)  depth_Leaf
+      depth_Node WFkids_depth WFkids_params is_leaf_max_for max_for_eq
+      WFbody_widen WFkids_widen WFtop_widen WF_widen (WF_widen_mut):
+          monotone in the interval: lo_le lo' lo -> hi_le hi hi' -> ...; only
+          key / separator RANGE checks are weakened, separators stay exact
+      WFbody_relo : WFbody lo hi t -> all_above lo' (contents t) -> WFbody lo' hi t
+      WFbody_relo_tmin : ... -> WFbody (Some (tmin0 t)) hi t   (WF_relo_mut)
+      WFbody_kwithin WFkids_kwithin WFkids_kwithin_hd WF_kwithin (keys in [lo,hi))
+      WFkids_all_ge WFkids_hd_all_lt WFkids_tl_all_ge  (child j < sep < child j+1)
+      WFbody_sorted WFkids_sorted WFbody_StronglySorted WF_sorted (WF_sorted_mut)
+      WFbody_nonempty WFkids_nonempty WF_nonempty
+      WFbody_tmin : tmin t = hdkey (contents t)     WFbody_tmin_cons
+      WFbody_tmin0 tmin0_Some WFbody_tmin_within WFbody_inhabited (WF_tmin_mut)
+      WFkids_sep_lt WFkids_sep_below WFkids_lo_lt_sep (strict ascent of separators)
+      hdkey_app hdkey_Some tmin_Node_app
+   8. leaf level (generic veq / value_same_check):
+      llookup_spec : ksorted l -> llookup V l k = alookup l k
+      lset_spec    : complete equation for lset by alookup l k
+      ldel_spec    : ldel V l k = match alookup l k with Some x => Some (aremove l k, x) ...
+      lset_cases (StNone / St0 / St1 with list, value, length)  lset_St1_iff
+      lset_sorted lset_kwithin lset_hdkey  ldel_cases
+      alookup_all_gt alookup_all_lt aremove_none_gt aremove_none_lt
+      aremove_absent ainsert_same ainsert_Forall aremove_Forall ainsert_kwithin
+      aremove_kwithin ainsert_all_lt ainsert_all_ge aremove_all_lt
+      aremove_all_ge ainsert_sorted aremove_sorted ainsert_length
+      aremove_length ainsert_nonempty hdkey_ainsert hdkey_ainsert_ge
+      hdkey_aremove_ne aremove_hd
+      leaf_refines : the exact statement of C01_leaf (V := Z, veq := Z.eqb)
+   9. concatenation algebra (no sortedness needed):
+      ainsert_app_l aremove_app_l alookup_app_l  (all_gt k b: work in a)
+      ainsert_app_r aremove_app_r alookup_app_r  (all_lt a k: work in b)
+      descent over (s, c) :: rest, by [chosen V k rest]:
+      chosen_true_gt chosen_false_inv chosen_false_lt chosen_true_within
+      chosen_false_within
+      ainsert_kcontents_here / _skip, aremove_kcontents_here / _skip,
+      alookup_kcontents_here / _skip
+   10. tget:  tget_go tget_Node tget_spec_mut
+      tget_spec : WFbody lo hi t -> tget V t k = alookup (contents t) k
+      tget_spec_WF  Inv_tget
+   11. splitting:  div2_bounds div2_halves_overflow (n = bound+1: halves in
+      [1, bound])  div2_halves_double (n = 2h: halves = h)  div2_halves_pos
+      halves_app halves_length halves_nonempty halves_sorted
+      WFkids_app  (cut a children list at a child: left list below its
+                   separator s2, right list a first-list from s2, s2 exact)
+      WFkids_glue (converse)
+      split_node_Leaf split_node_Node split_node_contents split_node_shape
+      (sizes div2 n / n - div2 n, kind, ids)  split_leaf_WF split_inner_WF
+      split_node_WF : WFbody lo hi t -> 2 <= tsize t -> split_node fresh t = (a, b) ->
+          WFbody lo (Some (tmin0 b)) a /\ WFbody (Some (tmin0 b)) hi b /\
+          tmin b = Some (tmin0 b) /\ Within lo hi (tmin0 b) /\ tmin a = tmin t /\
+          depth a = depth t /\ depth b = depth t
+      split_node_sizes_overflow (tsize t = max_for t + 1 -> size_ok a /\ size_ok b)
+      split_node_sizes_double   (tsize t = 2h -> tsize a = h /\ tsize b = h)
+   12. rebuilding a children list around its head (shapes made by the inner
+      loops of tset / tdel):  lo_of next_hi WFkids_inv' WFkids_cons' lo_of_le
+      next_hi_le
+      WFkids_cons_rest (same head, new tail whose next_hi did not shrink)
+      WFkids_replace   (new head child in the same slot)
+      WFkids_grow      (head child replaced by a, (sb, b): grow_at)
+      WFkids_drop      (head child removed)
+      WFkids_resep     (head separator refreshed to the child's exact minimum)
+      WFkids_first WFkids_first_widen WFkids_relo WFkids_unfirst
+      WFkids_pair (split_root)  WFkids_single
+   Not provided: alookup-after-ainsert/aremove equations (not needed for
+   refinement against Spec, which uses the same functions). *)
 From Coq Require Import ZArith List Bool Arith Sorted Lia.
 From BT Require Import Model.RTree Model.TreeSpec Model.TreeRun.
 Import ListNotations.
@@ -1123,18 +1261,18 @@ Proof. intros root lo hi t k [_ H]. eapply tget_spec; eauto. Qed.
 (* 11. Splitting                                                       *)
 (* ================================================================== *)
 (* --- arithmetic of Nat.div2 --- *)
-Lemma div2_bounds : forall n, (2 * Nat.div2 n <= n <= 2 * Nat.div2 n + 1)%nat.
+Lemma div2_bounds : forall n : nat, (2 * Nat.div2 n <= n <= 2 * Nat.div2 n + 1)%nat.
 Proof.
   intros. pose proof (Nat.div2_odd n) as H. destruct (Nat.odd n); simpl Nat.b2n in H; lia.
 Qed.
-Lemma div2_halves_overflow : forall n bound,
+Lemma div2_halves_overflow : forall n bound : nat,
   n = (bound + 1)%nat -> (1 <= bound)%nat ->
   (1 <= Nat.div2 n <= bound)%nat /\ (1 <= n - Nat.div2 n <= bound)%nat.
 Proof. intros. pose proof (div2_bounds n). lia. Qed.
-Lemma div2_halves_double : forall n m,
-  n = (2 * m)%nat -> Nat.div2 n = m /\ (n - Nat.div2 n)%nat = m.
+Lemma div2_halves_double : forall n h : nat,
+  n = (2 * h)%nat -> Nat.div2 n = h /\ (n - Nat.div2 n)%nat = h.
 Proof. intros. pose proof (div2_bounds n). lia. Qed.
-Lemma div2_halves_pos : forall n, (2 <= n)%nat ->
+Lemma div2_halves_pos : forall n : nat, (2 <= n)%nat ->
   (1 <= Nat.div2 n)%nat /\ (1 <= n - Nat.div2 n)%nat /\ (Nat.div2 n < n)%nat.
 Proof. intros. pose proof (div2_bounds n). lia. Qed.
 
@@ -1158,9 +1296,431 @@ Qed.
 Lemma halves_sorted : forall (l : list (Z * V)), ksorted l ->
   ksorted (firstn (Nat.div2 (length l)) l) /\ ksorted (skipn (Nat.div2 (length l)) l).
 Proof.
-  intros l H. rewrite <- (halves_app _ l) in H at 1 2.
-  split; [eapply ksorted_app_l | eapply ksorted_app_r].
-  - rewrite <- (halves_app _ l) in H. exact H.
-  - rewrite <- (halves_app _ l) in H. exact H.
+  intros l H. pose proof (halves_app _ l) as E. rewrite <- E in H.
+  split; [eapply ksorted_app_l | eapply ksorted_app_r]; exact H.
 Qed.
+(* a sorted concatenation: the left part is below, the right part at or above
+   the first key of the right part *)
+Lemma ksorted_app_hd : forall (a b : list (Z * V)) kb,
+  ksorted (a ++ b) -> hdkey b = Some kb -> all_lt a kb /\ all_ge kb b.
+Proof.
+  intros a b kb H Hh. pose proof H as H0. apply ksorted_app in H. destruct H as (Ha & Hb & Hab).
+  split; [|apply ksorted_hd_ge; assumption].
+  apply hdkey_Some in Hh. destruct Hh as (v & r & ->).
+  unfold all_lt. rewrite Forall_forall. intros p Hp. apply (Hab p (kb, v)); simpl; auto.
+Qed.
+Lemma kwithin_cut_hi : forall lo hi s (m : list (Z * V)),
+  kwithin lo hi m -> all_lt m s -> kwithin lo (Some s) m.
+Proof.
+  unfold kwithin, all_lt. intros lo hi s m H1 H2. rewrite Forall_forall in *.
+  intros p Hp. split; [apply (H1 p Hp) | apply (H2 p Hp)].
+Qed.
+Lemma kwithin_cut_lo : forall lo hi s (m : list (Z * V)),
+  kwithin lo hi m -> all_ge s m -> kwithin (Some s) hi m.
+Proof. intros. eapply kwithin_relo; eauto. Qed.
+
+(* a non-first child's separator lies strictly below the child's upper bound *)
+Lemma WFkids_sep_below : forall lf d lo hi s c rest,
+  WFkids lf d false lo hi ((s, c) :: rest) ->
+  Below (match rest with [] => hi | (s2, _) :: _ => Some s2 end) s.
+Proof.
+  intros. apply WFkids_inv_false in H. destruct H as (_ & Ht & _ & _ & _ & Hc & _).
+  apply (WFbody_tmin_within _ _ _ _ Hc Ht).
+Qed.
+
+(* cutting a children list in two: the left part is a WF list below the
+   separator s2 of the first right child, the right part a WF first-list from
+   s2 on; s2 is exact and inside the interval *)
+Lemma WFkids_app : forall l1 lf d first lo hi s2 c2 r2,
+  l1 <> [] ->
+  WFkids lf d first lo hi (l1 ++ (s2, c2) :: r2) ->
+  WFkids lf d first lo (Some s2) l1 /\
+  WFkids lf d true (Some s2) hi ((s2, c2) :: r2) /\
+  tmin c2 = Some s2 /\ Within lo hi s2.
+Proof.
+  induction l1 as [|[s c] l1 IH]; intros lf d first lo hi s2 c2 r2 Hne H; [congruence|].
+  clear Hne. rewrite <- app_comm_cons in H. pose proof H as H0.
+  apply WFkids_inv in H. destruct H as (H1 & H2 & H3 & H4 & Hc & Hr).
+  assert (Hlo : lo_le lo (if first then lo else Some s)).
+  { destruct first; [apply lo_le_refl|]. destruct H1 as [H1|[[H1 _] _]]; [discriminate|].
+    apply Above_lo_le. exact H1. }
+  destruct l1 as [|[s' c'] l1'].
+  - simpl in *. pose proof (WFkids_first _ _ _ _ _ _ _ Hr) as Hf.
+    apply WFkids_inv_false in Hr. destruct Hr as (Hw & Ht & _).
+    repeat split; auto.
+    + constructor; auto; [|constructor].
+      destruct first; [left; reflexivity|right].
+      destruct H1 as [H1|[H1 H1']]; [discriminate|]. split; [|exact H1'].
+      split; [apply H1|]. apply (WFkids_sep_below _ _ _ _ _ _ _ H0).
+    + eapply Above_widen; [apply Hw | exact Hlo].
+    + apply Hw.
+  - destruct (IH lf d false _ hi s2 c2 r2 ltac:(discriminate) Hr) as (Ia & Ib & Ic & Id).
+    repeat split; auto.
+    + constructor; auto.
+      destruct first; [left; reflexivity|right].
+      destruct H1 as [H1|[H1 H1']]; [discriminate|]. split; [|exact H1'].
+      split; [apply H1|].
+      pose proof (WFkids_sep_below _ _ _ _ _ _ _ H0) as Hb. simpl in Hb.
+      apply WFkids_inv_false in Ia. destruct Ia as ([_ Hs'] & _). simpl in Hs'. simpl. lia.
+    + eapply Above_widen; [apply Id | exact Hlo].
+    + apply Id.
+Qed.
+
+(* and the converse: gluing two lists at an exact separator *)
+Lemma WFkids_glue : forall l1 lf d first lo hi s2 c2 r2,
+  WFkids lf d first lo (Some s2) l1 ->
+  WFkids lf d true (Some s2) hi ((s2, c2) :: r2) ->
+  tmin c2 = Some s2 -> Below hi s2 -> (l1 = [] -> first = false /\ Above lo s2) ->
+  WFkids lf d first lo hi (l1 ++ (s2, c2) :: r2).
+Proof.
+  induction l1 as [|[s c] l1 IH]; intros lf d first lo hi s2 c2 r2 H1 H2 Ht Hb Hnil.
+  - destruct (Hnil eq_refl) as [-> Ha]. simpl. apply WFkids_unfirst; auto. split; assumption.
+  - rewrite <- app_comm_cons. apply WFkids_inv in H1.
+    destruct H1 as (Ha & Hk & Hd & Hs & Hc & Hr).
+    assert (Hlt : first = false -> s < s2).
+    { intros ->. destruct Ha as [Ha|[[_ Ha] _]]; [discriminate | exact Ha]. }
+    constructor; auto.
+    + destruct Ha as [Ha|[[Ha Ha'] Ha'']]; [left; exact Ha|right].
+      split; [|exact Ha'']. split; [exact Ha|]. eapply Below_trans; [exact Hb | simpl in Ha'; lia].
+    + destruct l1 as [|[s' c'] l1']; exact Hc.
+    + apply IH; auto. intros ->. split; [reflexivity|].
+      destruct first; simpl.
+      * pose proof (WFbody_inhabited _ _ _ Hc (proj1 Hs)) as [Hx Hy]. simpl in Hy.
+        eapply Above_trans; [exact Hx | lia].
+      * specialize (Hlt eq_refl). lia.
+Qed.
+
+(* --- inversion of WFbody by constructor of the tree --- *)
+Lemma WFbody_Leaf_inv : forall lo hi i l,
+  WFbody lo hi (Leaf i l) -> ksorted l /\ kwithin lo hi l.
+Proof. intros. inversion H; subst. auto. Qed.
+Lemma WFbody_Node_inv : forall lo hi i kids,
+  WFbody lo hi (Node i kids) -> exists lf d, WFkids lf d true lo hi kids.
+Proof. intros. inversion H; subst. eauto. Qed.
+
+(* --- split_node --- *)
+Lemma split_node_Leaf : forall fresh i l,
+  split_node fresh (Leaf i l) =
+  (Leaf i (firstn (Nat.div2 (length l)) l), Leaf fresh (skipn (Nat.div2 (length l)) l)).
+Proof. reflexivity. Qed.
+Lemma split_node_Node : forall fresh i k,
+  split_node fresh (Node i k) =
+  (Node i (firstn (Nat.div2 (length k)) k), Node fresh (skipn (Nat.div2 (length k)) k)).
+Proof. reflexivity. Qed.
+
+Lemma split_node_contents : forall fresh t a b,
+  split_node fresh t = (a, b) -> contents a ++ contents b = contents t.
+Proof.
+  intros fresh [i l | i k] a b H; inversion H; subst; simpl.
+  - apply firstn_skipn.
+  - change (kcontents (firstn (Nat.div2 (length k)) k) ++ kcontents (skipn (Nat.div2 (length k)) k)
+            = kcontents k).
+    rewrite <- kcontents_app, firstn_skipn. reflexivity.
+Qed.
+Lemma split_node_shape : forall fresh t a b,
+  split_node fresh t = (a, b) ->
+  tsize a = Nat.div2 (tsize t) /\ tsize b = (tsize t - Nat.div2 (tsize t))%nat /\
+  is_leaf a = is_leaf t /\ is_leaf b = is_leaf t /\ tid V a = tid V t /\ tid V b = fresh.
+Proof.
+  intros fresh [i l | i k] a b H; inversion H; subst; simpl;
+    [destruct (halves_length _ l) | destruct (halves_length _ k)]; auto 10.
+Qed.
+
+Lemma split_leaf_WF : forall fresh lo hi i l a b,
+  WFbody lo hi (Leaf i l) -> (2 <= length l)%nat ->
+  split_node fresh (Leaf i l) = (a, b) ->
+  WFbody lo (Some (tmin0 b)) a /\ WFbody (Some (tmin0 b)) hi b /\
+  tmin b = Some (tmin0 b) /\ Within lo hi (tmin0 b) /\ tmin a = tmin (Leaf i l).
+Proof.
+  intros fresh lo hi i l a b H Hn Hs. rewrite split_node_Leaf in Hs. inversion Hs; subst. clear Hs.
+  apply WFbody_Leaf_inv in H. destruct H as [Hsl Hwl].
+  set (l1 := firstn (Nat.div2 (length l)) l) in *.
+  set (l2 := skipn (Nat.div2 (length l)) l) in *.
+  assert (E : l1 ++ l2 = l) by apply firstn_skipn.
+  destruct (halves_nonempty _ l Hn) as [N1 N2]. fold l1 in N1. fold l2 in N2.
+  destruct (halves_sorted l Hsl) as [S1 S2]. fold l1 in S1. fold l2 in S2.
+  assert (W : kwithin lo hi (l1 ++ l2)) by (rewrite E; assumption).
+  apply kwithin_app in W. destruct W as [W1 W2].
+  assert (Hsort : ksorted (l1 ++ l2)) by (rewrite E; assumption).
+  clearbody l1 l2. destruct l2 as [|[kb vb] r2]; [congruence|].
+  destruct (ksorted_app_hd _ _ kb Hsort eq_refl) as [A1 A2].
+  change (tmin0 (Leaf fresh ((kb, vb) :: r2))) with kb.
+  assert (Wk : Within lo hi kb) by (inversion W2; subst; assumption).
+  repeat split.
+  - constructor; [assumption | eapply kwithin_cut_hi; eassumption].
+  - constructor; [assumption | eapply kwithin_cut_lo; eassumption].
+  - apply Wk.
+  - apply Wk.
+  - change (hdkey l1 = hdkey l). rewrite <- E. symmetry. apply hdkey_app. assumption.
+Qed.
+
+Lemma tmin_Node_app : forall i (l1 l2 : list (Z * tree)),
+  l1 <> [] -> tmin (Node i (l1 ++ l2)) = tmin (Node i l1).
+Proof. intros i [|[s c] l1] l2 H; [congruence | reflexivity]. Qed.
+
+Lemma split_inner_WF : forall fresh lo hi i k a b,
+  WFbody lo hi (Node i k) -> (2 <= length k)%nat ->
+  split_node fresh (Node i k) = (a, b) ->
+  WFbody lo (Some (tmin0 b)) a /\ WFbody (Some (tmin0 b)) hi b /\
+  tmin b = Some (tmin0 b) /\ Within lo hi (tmin0 b) /\ tmin a = tmin (Node i k) /\
+  depth a = depth (Node i k) /\ depth b = depth (Node i k).
+Proof.
+  intros fresh lo hi i k a b H Hn Hs. rewrite split_node_Node in Hs. inversion Hs; subst. clear Hs.
+  apply WFbody_Node_inv in H. destruct H as (lf & d & H).
+  set (l1 := firstn (Nat.div2 (length k)) k) in *.
+  set (l2 := skipn (Nat.div2 (length k)) k) in *.
+  assert (E : l1 ++ l2 = k) by apply firstn_skipn.
+  destruct (halves_nonempty _ k Hn) as [N1 N2]. fold l1 in N1. fold l2 in N2.
+  clearbody l1 l2. subst k. destruct l2 as [|[s2 c2] r2]; [congruence|].
+  destruct (WFkids_app _ _ _ _ _ _ _ _ _ N1 H) as (Ha & Hb & Ht & Hw).
+  assert (E0 : tmin0 (Node fresh ((s2, c2) :: r2)) = s2) by (apply tmin0_Some; exact Ht).
+  rewrite E0.
+  destruct l1 as [|[s1 c1] r1]; [congruence|].
+  repeat split.
+  - econstructor. exact Ha.
+  - econstructor. exact Hb.
+  - exact Ht.
+  - apply Hw.
+  - apply Hw.
+  - rewrite (WFkids_depth _ _ _ _ _ fresh _ _ _ Hb). rewrite <- app_comm_cons in H.
+    rewrite <- app_comm_cons. rewrite (WFkids_depth _ _ _ _ _ i _ _ _ H). reflexivity.
+Qed.
+
+(* the general statement: both halves are WF (bodies) in adjacent intervals
+   meeting at the exact minimum of the right half; sizes are given by
+   split_node_shape, contents by split_node_contents *)
+Theorem split_node_WF : forall fresh lo hi t a b,
+  WFbody lo hi t -> (2 <= tsize t)%nat -> split_node fresh t = (a, b) ->
+  WFbody lo (Some (tmin0 b)) a /\ WFbody (Some (tmin0 b)) hi b /\
+  tmin b = Some (tmin0 b) /\ Within lo hi (tmin0 b) /\ tmin a = tmin t /\
+  depth a = depth t /\ depth b = depth t.
+Proof.
+  intros fresh lo hi [i l | i k] a b H Hn Hs.
+  - destruct (split_leaf_WF _ _ _ _ _ _ _ H Hn Hs) as (H1 & H2 & H3 & H4 & H5).
+    rewrite split_node_Leaf in Hs. inversion Hs; subst. auto 10.
+  - eapply split_inner_WF; eassumption.
+Qed.
+
+(* sizes of the halves for the two situations in which the code splits *)
+Lemma split_node_sizes_overflow : forall fresh t a b,
+  split_node fresh t = (a, b) -> tsize t = (max_for t + 1)%nat -> (1 <= max_for t)%nat ->
+  size_ok a /\ size_ok b.
+Proof.
+  intros fresh t a b Hs Hn Hm. destruct (split_node_shape _ _ _ _ Hs) as (Ha & Hb & La & Lb & _).
+  unfold size_ok. rewrite (max_for_eq _ _ La), (max_for_eq _ _ Lb), Ha, Hb.
+  destruct (div2_halves_overflow _ _ Hn Hm). auto.
+Qed.
+Lemma split_node_sizes_double : forall fresh t a b h,
+  split_node fresh t = (a, b) -> tsize t = (2 * h)%nat -> tsize a = h /\ tsize b = h.
+Proof.
+  intros fresh t a b h Hs Hn. destruct (split_node_shape _ _ _ _ Hs) as (Ha & Hb & _).
+  rewrite Ha, Hb. apply div2_halves_double. assumption.
+Qed.
+
+(* ================================================================== *)
+(* 12. Rebuilding a children list around the head child                *)
+(*     (the shapes produced by the inner loops of tset / tdel)         *)
+(* ================================================================== *)
+(* the bounds handed to the head child of a list *)
+Definition lo_of (first : bool) (lo : option Z) (s : Z) : option Z := if first then lo else Some s.
+Definition next_hi (hi : option Z) (rest : list (Z * tree)) : option Z :=
+  match rest with [] => hi | (s2, _) :: _ => Some s2 end.
+
+Lemma WFkids_inv' : forall lf d first lo hi s c rest,
+  WFkids lf d first lo hi ((s, c) :: rest) ->
+  (first = true \/ (Within lo hi s /\ tmin c = Some s)) /\
+  is_leaf c = lf /\ depth c = d /\ size_ok c /\
+  WFbody (lo_of first lo s) (next_hi hi rest) c /\
+  WFkids lf d false (lo_of first lo s) hi rest.
+Proof. exact WFkids_inv. Qed.
+Lemma WFkids_cons' : forall lf d first lo hi s c rest,
+  (first = true \/ (Within lo hi s /\ tmin c = Some s)) ->
+  is_leaf c = lf -> depth c = d -> size_ok c ->
+  WFbody (lo_of first lo s) (next_hi hi rest) c ->
+  WFkids lf d false (lo_of first lo s) hi rest ->
+  WFkids lf d first lo hi ((s, c) :: rest).
+Proof. exact WFK_cons. Qed.
+Lemma lo_of_le : forall lf d first lo hi s c rest,
+  WFkids lf d first lo hi ((s, c) :: rest) -> lo_le lo (lo_of first lo s).
+Proof.
+  intros. apply WFkids_inv in H. destruct H as (H1 & _). destruct first; [apply lo_le_refl|].
+  destruct H1 as [H1|[[H1 _] _]]; [discriminate|]. apply Above_lo_le. exact H1.
+Qed.
+Lemma next_hi_le : forall lf d lo hi rest,
+  WFkids lf d false lo hi rest -> hi_le (next_hi hi rest) hi.
+Proof.
+  intros. destruct rest as [|[s2 c2] r]; [apply hi_le_refl|].
+  apply WFkids_inv_false in H. destruct H as [[_ Hb] _]. apply Below_hi_le. exact Hb.
+Qed.
+
+(* same head child, new tail (skip case of the loops); the upper bound of the
+   head child may only grow *)
+Lemma WFkids_cons_rest : forall lf d first lo hi s c rest rest',
+  WFkids lf d first lo hi ((s, c) :: rest) ->
+  WFkids lf d false (lo_of first lo s) hi rest' ->
+  hi_le (next_hi hi rest) (next_hi hi rest') ->
+  WFkids lf d first lo hi ((s, c) :: rest').
+Proof.
+  intros. apply WFkids_inv' in H. destruct H as (H2 & H3 & H4 & H5 & H6 & H7).
+  apply WFkids_cons'; auto. eapply WFbody_widen; [exact H6 | apply lo_le_refl | assumption].
+Qed.
+(* new head child in the same slot *)
+Lemma WFkids_replace : forall lf d first lo hi s c c' rest,
+  WFkids lf d first lo hi ((s, c) :: rest) ->
+  is_leaf c' = lf -> depth c' = d -> size_ok c' ->
+  WFbody (lo_of first lo s) (next_hi hi rest) c' ->
+  (first = false -> tmin c' = Some s) ->
+  WFkids lf d first lo hi ((s, c') :: rest).
+Proof.
+  intros. apply WFkids_inv' in H. destruct H as (H6 & _ & _ & _ & _ & H7).
+  apply WFkids_cons'; auto. destruct first; [left; reflexivity|right].
+  destruct H6 as [H6|[H6 _]]; [discriminate|]. auto.
+Qed.
+
+(* the head child replaced by two children a, b (grow_at after a split) *)
+Lemma WFkids_grow : forall lf d first lo hi s c a b sb rest,
+  WFkids lf d first lo hi ((s, c) :: rest) ->
+  is_leaf a = lf -> is_leaf b = lf -> depth a = d -> depth b = d -> size_ok a -> size_ok b ->
+  WFbody (lo_of first lo s) (Some sb) a -> WFbody (Some sb) (next_hi hi rest) b ->
+  tmin b = Some sb -> Within (lo_of first lo s) (next_hi hi rest) sb ->
+  (first = false -> tmin a = Some s) ->
+  WFkids lf d first lo hi ((s, a) :: (sb, b) :: rest).
+Proof.
+  intros lf d first lo hi s c a b sb rest H La Lb Da Db Sa Sb Wa Wb Tb Ws Ta.
+  apply WFkids_inv' in H. destruct H as (H1 & _ & _ & _ & _ & Hr).
+  apply WFkids_cons'; auto.
+  - destruct first; [left; reflexivity|right].
+    destruct H1 as [H1|[H1 _]]; [discriminate|]. auto.
+  - apply WFkids_cons'; auto.
+    + right. split; [|exact Tb]. eapply Within_widen; [exact Ws | apply lo_le_refl |].
+      eapply next_hi_le. exact Hr.
+    + eapply WFkids_relo; [exact Hr|]. destruct rest as [|[s2 c2] r]; [exact I|].
+      destruct Ws as [_ Ws]. unfold lo_of, next_hi, Above, Below in *. lia.
+Qed.
+(* the head child removed (it became empty) *)
+Lemma WFkids_drop : forall lf d first lo hi s c rest,
+  WFkids lf d first lo hi ((s, c) :: rest) -> WFkids lf d first lo hi rest.
+Proof.
+  intros lf d first lo hi s c rest H. pose proof (lo_of_le _ _ _ _ _ _ _ _ H) as Hlo.
+  apply WFkids_inv' in H. destruct H as (_ & _ & _ & _ & _ & Hr).
+  destruct rest as [|[s2 c2] r]; [constructor|]. destruct first.
+  - simpl in Hr. eapply WFkids_first_widen; [exact Hr|].
+    apply WFkids_inv_false in Hr. apply Hr.
+  - eapply WFkids_relo; [exact Hr|]. simpl.
+    apply WFkids_inv_false in Hr. destruct Hr as [[Ha _] _].
+    eapply Above_widen; [exact Ha | exact Hlo].
+Qed.
+(* the head separator refreshed to the exact minimum of the new head child *)
+Lemma WFkids_resep : forall lf d lo hi s s' c' rest,
+  is_leaf c' = lf -> depth c' = d -> size_ok c' ->
+  WFbody (Some s) (next_hi hi rest) c' -> tmin c' = Some s' -> Above lo s ->
+  WFkids lf d false (Some s) hi rest ->
+  WFkids lf d false lo hi ((s', c') :: rest).
+Proof.
+  intros lf d lo hi s s' c' rest Lc Dc Sc Wc Tc Ha Hr.
+  pose proof (WFbody_tmin_within _ _ _ _ Wc Tc) as [Hs1 Hs2]. simpl in Hs1.
+  apply WFkids_cons'; auto.
+  - right. split; [|exact Tc]. split; [eapply Above_trans; eauto|].
+    eapply Below_widen; [exact Hs2 | eapply next_hi_le; exact Hr].
+  - simpl. rewrite <- (tmin0_Some _ _ Tc). eapply WFbody_relo_tmin; [exact Wc | apply Sc].
+  - simpl. eapply WFkids_relo; [exact Hr|]. destruct rest as [|[s2 c2] r]; [exact I|].
+    unfold lo_of, next_hi, Above, Below in *. lia.
+Qed.
+(* a two-children list (split_root) *)
+Lemma WFkids_pair : forall lf d lo hi s0 a b sb,
+  is_leaf a = lf -> is_leaf b = lf -> depth a = d -> depth b = d -> size_ok a -> size_ok b ->
+  WFbody lo (Some sb) a -> WFbody (Some sb) hi b -> tmin b = Some sb -> Within lo hi sb ->
+  WFkids lf d true lo hi [(s0, a); (sb, b)].
+Proof.
+  intros. apply WFkids_cons'; auto. apply WFkids_cons'; auto. constructor.
+Qed.
+(* a one-child list *)
+Lemma WFkids_single : forall lf d lo hi s0 c,
+  is_leaf c = lf -> depth c = d -> size_ok c -> WFbody lo hi c ->
+  WFkids lf d true lo hi [(s0, c)].
+Proof. intros. apply WFkids_cons'; auto. constructor. Qed.
+
+Lemma size_ok_Leaf : forall i l, size_ok (Leaf i l) <-> (1 <= length l <= ml)%nat.
+Proof. reflexivity. Qed.
+Lemma size_ok_Node : forall i k, size_ok (Node i k) <-> (1 <= length k <= mi)%nat.
+Proof. reflexivity. Qed.
+Lemma size_ok_WFtop : forall lo hi t,
+  size_ok t -> WFbody lo hi t -> WFtop (fun n => (1 <= n <= max_for t)%nat) lo hi t.
+Proof. unfold WFtop, size_ok. auto. Qed.
+(* the empty trees satisfy WFbody *)
+Lemma WFbody_Leaf_nil : forall lo hi i, WFbody lo hi (Leaf i []).
+Proof. intros. constructor; [apply ksorted_nil | constructor]. Qed.
+Lemma WFbody_Node_nil : forall lo hi i, WFbody lo hi (Node i []).
+Proof. intros. apply WFB_node with (lf := true) (d := 0%nat). constructor. Qed.
+(* a singleton leaf *)
+Lemma WFbody_Leaf_single : forall lo hi i k (v : V),
+  Within lo hi k -> WFbody lo hi (Leaf i [(k, v)]).
+Proof.
+  intros. constructor.
+  - apply ksorted_cons. split; [constructor | apply ksorted_nil].
+  - constructor; [assumption | constructor].
+Qed.
+(* --- the whole-container invariant --- *)
+Lemma Inv_Node_nil : forall i, Inv V ml mi (Node i []).
+Proof. reflexivity. Qed.
+Lemma Inv_Node_intro : forall i kids,
+  (1 <= length kids < 2 * mi)%nat -> WFbody None None (Node i kids) -> Inv V ml mi (Node i kids).
+Proof.
+  intros. apply Inv_iff. exists i, kids. split; [reflexivity|right].
+  split; [|assumption]. unfold top_size_ok. simpl. lia.
+Qed.
+Lemma Inv_inv : forall t, Inv V ml mi t ->
+  exists i kids, t = Node i kids /\
+    (kids = [] \/ ((1 <= length kids < 2 * mi)%nat /\ WFbody None None (Node i kids))).
+Proof.
+  intros t H. apply Inv_iff in H. destruct H as (i & kids & -> & [H|H]); exists i, kids.
+  - auto.
+  - split; [reflexivity|right]. destruct H as [[H1 H2] H3]. simpl in *. split; [lia | assumption].
+Qed.
+Lemma Inv_WFbody : forall t, Inv V ml mi t -> WFbody None None t.
+Proof.
+  intros t H. apply Inv_inv in H. destruct H as (i & kids & -> & [->|[_ H]]);
+    [apply WFbody_Node_nil | exact H].
+Qed.
+Lemma Inv_sorted : forall t, Inv V ml mi t -> ksorted (contents t).
+Proof. intros. eapply WFbody_sorted. apply Inv_WFbody. assumption. Qed.
+Lemma Inv_tget : forall t k, Inv V ml mi t -> tget V t k = alookup (contents t) k.
+Proof. intros. eapply tget_spec. apply Inv_WFbody. assumption. Qed.
+
 End Base.
+
+
+(* ================================================================== *)
+(* 13. The leaf theorem of C01, at V := Z                              *)
+(* ================================================================== *)
+Theorem leaf_refines : forall (vsame : bool) (l : list (Z * Z)) (k v : Z) (ifunset : bool),
+  StronglySorted Z.lt (map fst l) ->
+  (let '(l', st, rv) := lset Z Z.eqb vsame l k v ifunset in
+   l' = (if ifunset && Spec.mem l k then l else Spec.insert l k v) /\
+   (st = St1 <-> Spec.mem l k = false) /\
+   rv = (if ifunset then match Spec.lookup l k with Some x => x | None => v end else v)) /\
+  (match ldel Z l k with
+   | Some (l', x) => Spec.lookup l k = Some x /\ l' = Spec.remove l k
+   | None => Spec.lookup l k = None
+   end).
+Proof.
+  intros vsame l k v iu Hs. change (ksorted l) in Hs.
+  unfold Spec.mem.
+  change (Spec.lookup l k) with (alookup l k).
+  change (Spec.insert l k v) with (ainsert l k v).
+  change (Spec.remove l k) with (aremove l k).
+  split.
+  - rewrite (lset_spec Z Z.eqb vsame l k v iu Hs).
+    destruct (alookup l k) as [v'|] eqn:E.
+    + destruct iu; simpl.
+      * repeat split; intros; discriminate.
+      * destruct vsame; simpl.
+        -- destruct (Z.eqb_spec v v').
+           ++ subst v'. rewrite (ainsert_same Z l k v Hs E).
+              repeat split; intros; discriminate.
+           ++ repeat split; intros; discriminate.
+        -- repeat split; intros; discriminate.
+    + rewrite andb_false_r. destruct iu; repeat split; auto.
+  - pose proof (ldel_cases Z l k Hs) as H.
+    destruct (ldel Z l k) as [[l' x]|]; [tauto | assumption].
+Qed.
